@@ -8,10 +8,19 @@ package http2
 // path = "never panics". Oracle: a reference validator written from RFC 9113 §4.1/§6 (c07model) that is run
 // in lock-step and predicts, for every frame, whether ReadFrame returns a frame or which class of error
 // (I/O, ErrFrameTooLarge, connection error, stream error); returned frames are compared field by field with
-// the input bytes. VerifC07_meta adds a real hpack.Decoder (ReadMetaHeaders) and checks the documented
+// the input bytes. VerifC07_meta* add a real hpack.Decoder (ReadMetaHeaders) and checks the documented
 // guarantees of MetaHeadersFrame against an independent second decoder plus RFC 9113 §8.2/§8.3 field rules.
 //
-// Sensitivity (sh mut.sh; see the end of this comment for the results).
+// Sensitivity (sh mut.sh, each reported as VIOLATION and confirmed natively):
+//   - checkFrameOrder  `fh.StreamID != fr.lastHeaderStream` -> `false`        caught by VerifC07_two (error class)
+//   - ReadFrameHeader  `fh.Length > fr.maxReadSize` -> `> fr.maxReadSize+1`   caught by VerifC07_single (error class)
+//   - parseDataFrame   `int(padSize) > len(payload)` -> `> len(payload)+1`    caught by VerifC07_single (slice bounds panic)
+//   - readMetaFrame    pseudo-after-regular no longer sets `invalid`          caught by VerifC07_metafields (field order)
+//   - readMetaFrame    `size > remainSize` -> `>=`                            caught by VerifC07_metasize (Truncated only if next field does not fit)
+//
+// No finding inside the C07 statement on the unchanged tree. Observation outside it (repro/C07): with
+// MaxHeaderListSize >= 2^31 `2*remainSize` in readMetaFrame wraps around in uint32 and well-formed small header
+// blocks are rejected with PROTOCOL_ERROR; the completeness assertion below therefore excludes that range.
 
 import (
 	"bytes"
@@ -493,14 +502,14 @@ func c07field(b []byte, rich bool) []byte {
 			vfAssume(vfOr(fb == 0x4f, fb == 0x0f))
 			b = c07str(append(b, fb), "value", 2, true)
 		}
-	case 2: // literal with new name of 1..2 symbolic bytes and value of 0..1 symbolic bytes
+	case 2: // literal with new name of 1..2 symbolic bytes and empty value
 		fb := vfU8("first")
 		vfAssume(vfOr(fb == 0x40, fb == 0x10))
 		b = append(b, fb)
 		nl := vfLen("namelen", 1, 2)
 		b = append(b, byte(nl))
 		b = append(b, vfBytes("name", nl)...)
-		b = c07str(b, "value", vfTier(), false)
+		b = c07str(b, "value", 0, false)
 	}
 	return b
 }
@@ -522,13 +531,20 @@ func c07hdr(b []byte, length int, t FrameType, flags Flags, sid uint32) []byte {
 		byte(sid>>24), byte(sid>>16), byte(sid>>8), byte(sid))
 }
 
-// Field validation: one HEADERS frame with END_HEADERS, default MaxHeaderListSize; block = up to 2 (thorough 3)
-// generated fields of every shape, or 1..2 (thorough 3) raw bytes.
+// Field validation: one HEADERS frame with END_HEADERS, default MaxHeaderListSize; block = up to 2 generated
+// fields of every shape (thorough: longer values, or 3 indexed fields), or 1..2 (thorough 3) raw bytes.
 func VerifC07_metafields() {
 	var block []byte
 	if vfChoice("mode", 2) == 0 {
 		k := vfLen("fields", 0, 2+vfTier())
 		for i := 0; i < k; i++ {
+			if k == 3 {
+				// three fields (thorough): indexed representations only
+				idx := vfU8("index")
+				vfAssume(vfOr(idx == 0, vfOr(idx == 2, vfOr(idx == 3, vfOr(idx == 8, vfOr(idx == 15, idx == 62))))))
+				block = append(block, 0x80|idx)
+				continue
+			}
 			block = c07field(block, true)
 		}
 	} else {
@@ -552,11 +568,11 @@ func VerifC07_metafields() {
 	vfReach("end")
 }
 
-// Size accounting: 0..3 always-valid fields, MaxHeaderListSize fully symbolic, one HEADERS frame or a split at
+// Size accounting: 0..2 (thorough 0..3) always-valid fields, MaxHeaderListSize fully symbolic, one HEADERS frame or a split at
 // the first byte / the end with a correct CONTINUATION.
 func VerifC07_metasize() {
 	var block []byte
-	k := vfLen("fields", 0, 3)
+	k := vfLen("fields", 0, 2+vfTier())
 	for i := 0; i < k; i++ {
 		block = c07field(block, false)
 	}
